@@ -128,12 +128,14 @@ CHECKS = {
     note="Three open known findings (share group spanning nodes: starved / served twice / retained served per node) - structural (the Message event carries no group information). Views are assumed converged (C16 covers convergence)."),
  "C15": dict(
     level="model_checking", ref="DESIGN.md §4 C15, App. B.4, §6",
-    technique="TLC model check of Conn.tla (PlusCal model of one connection's goroutines, channels, locks and Stop; guard constants extracted from the source by go/ast at check time); TLC behaviours converted into scripts and run on real brokers under watchdogs; trace validation of lifecycle hook events of free-running storms against TraceConn.tla",
+    technique="TLC model check of Conn.tla (PlusCal model of one connection's goroutines, channels, locks and Stop) and LockOrder.tla (broker-wide lock order, Go RWMutex writer preference), constants of both extracted from the source by go/ast at check time; TLC behaviours converted into scripts (schedule gating through trace hooks and a gated persistence) and run on real brokers under watchdogs; trace validation of lifecycle hook events of free-running storms against TraceConn.tla",
     text="Conn.tla models readLoop / writeLoop / serve / pollMessages / readHandle, setError with sync.Once, bounded channels, socket state, srv.mu and Stop, with unfair peers (never reading, never closing). TLC checks on packs of the model: "
          "deadlock freedom, StopCalled ~> StopReturned, SockClosed ~> ClosedSignalled, nothing alive after Stop returned, Unload/OnStop exactly once, Responsive, OneRegistered, with the constants the check extracts from the current source. "
          "For every named deviation the stuck state is searched in the faithful model and the shortest behaviour reaching it becomes a script executed on a real broker (request answered or connection closed within 2 s, closed event after a socket close, "
          "Stop returns within 3 s, hooks once, goroutine profile empty after Stop); a fixed regression library and storms (simultaneous connects, take-overs, stalled peers, Stop in the middle) run the same way, the storms on a -race build, "
-         "and their lifecycle events are validated by TLC against TraceConn.tla.",
+         "and their lifecycle events are validated by TLC against TraceConn.tla. LockOrder.tla: srv.mu, the subscription store's RWMutex, queue mutex, packet-id limiter, statsManager.clientMu and the order the code paths take them "
+         "(which locks the statistics paths and pollInflights nest is read from the source); NoLockCycle is checked exhaustively, a stuck state becomes a gated script (a real delivery parked at a trace hook under srv.mu + the store's read lock; "
+         "a resumed session parked inside the persistence layer) or the pairs workload (fresh client ids, store writers, deliveries, statistics reads against each other, both delivery modes).",
     note="'No data race' is NOT decided by the specification (DESIGN.md §6): the Go race detector observes the storm executions only. One open known finding (delayed-will goroutine outlives Stop). Model fidelity of guards is kept by the go/ast extraction; the rest of Conn.tla is hand-written."),
  "C09": dict(
     level="fault_enumeration", ref="DESIGN.md §4 C09",
